@@ -25,11 +25,16 @@ from oqupy import process_tensor as ptm
 spec = json.loads(sys.argv[1])
 kill_at, flush = spec["kill_at"], spec["flush"]
 count = [0]
+class Died(BaseException): pass
 orig_set = ptm._set_data_and_shape
 def counted_set(step, data, shape, tensor):
     orig_set(step, data, shape, tensor)
     count[0] += 1
     if count[0] == kill_at:
+        if spec.get("death") == "raise":
+            # the writer dies through a Python exception (KeyboardInterrupt, MemoryError, disk full ...): the stack
+            # unwinds through the library, the interpreter shuts down normally (h5py flushes what is open)
+            raise Died()
         if flush:
             data.file.flush()
         os._exit(9)
@@ -185,6 +190,8 @@ def run(chk):
                     jobs.append({"writer": "export", "d": 2, "bonds": bonds, "kill_at": k, "flush": flush})
                 jobs.append({"writer": "export", "d": 2, "bonds": bonds, "kill_at": 0, "flush": flush, "kill_in_close": True})
             jobs.append({"writer": "export", "d": 2, "bonds": bonds, "kill_at": 0, "flush": False})   # completes
+            for k in range(1, nops - 1):
+                jobs.append({"writer": "export", "d": 2, "bonds": bonds, "kill_at": k, "flush": False, "death": "raise"})
         end = 0.4 if thorough else 0.3
         # a file-backed PT-TEMPO run: count its operations first, then kill at each
         probe = {"writer": "pttempo", "end": end, "kill_at": 0, "flush": False, "file": os.path.join(tmp, "probe.hdf5")}
@@ -199,6 +206,9 @@ def run(chk):
                 jobs.append({"writer": "pttempo", "end": end, "kill_at": k, "flush": False})
         if nops_t:
             jobs.append({"writer": "pttempo", "end": end, "kill_at": 0, "flush": True, "kill_in_close": True})
+            for k in sorted(set([1, 2, nops_t // 2, nops_t - 1]) if not thorough else range(1, nops_t)):
+                if 1 <= k < nops_t:
+                    jobs.append({"writer": "pttempo", "end": end, "kill_at": k, "flush": False, "death": "raise"})
         for i, j in enumerate(jobs):
             j["file"] = os.path.join(tmp, f"crash_{i}.hdf5")
         with ThreadPoolExecutor(12) as ex:
@@ -210,22 +220,23 @@ def run(chk):
             rec = dict(j, outcome=outcome, content=content, rc=rc)
             rec.pop("file")
             chk.count(f"{j['writer']}:{outcome}")
-            chk.case(rec, (j["writer"], j["kill_at"], j["flush"], str(j.get("bonds")), bool(j.get("kill_in_close"))))
+            chk.case(rec, (j["writer"], j["kill_at"], j["flush"], str(j.get("bonds")), bool(j.get("kill_in_close")), j.get("death", "kill")))
             if completed:
                 if rc != 0:
                     chk.disagree("crash harness", f"uninterrupted writer failed: {err}")
                 elif outcome != "clean":
                     chk.fail("clean-file-warns", f"a normally closed file opens as '{outcome}'", rec)
             else:
-                if rc != 9:
+                if rc != (1 if j.get("death") == "raise" else 9) or (j.get("death") == "raise" and "Died" not in err):
                     chk.disagree("crash harness", f"child did not die where asked: rc={rc} {err}")
                 elif outcome == "clean" and j.get("kill_in_close") and \
                         content == ([len(j["bonds"]) - 1, len(j["bonds"])] if j["writer"] == "export" else full_t):
                     pass    # died inside h5py's own close after the flag was reset: complete content, nothing missing
                 elif outcome == "clean":
-                    chk.fail("crash-undetected",
-                             f"writer killed after operation {j['kill_at']} ({'flushed' if j['flush'] else 'unflushed'}); "
-                             f"the file opens without error or warning (content {content})", rec)
+                    chk.fail("crash-undetected" if j.get("death") != "raise" else "exception-death-undetected",
+                             (f"writer killed after operation {j['kill_at']} ({'flushed' if j['flush'] else 'unflushed'}); " if j.get("death") != "raise" else
+                              f"writer dies through an exception raised in write operation {j['kill_at']}; ")
+                             + f"the file opens without error or warning (content {content})", rec)
                 # model: flushed prefix of export must read back as the model's prefix state
                 if j["writer"] == "export" and j["flush"] and outcome == "warned" and j["kill_at"] >= 1:
                     nm = max(0, min(len(j["bonds"]) - 1, j["kill_at"] - 2))
